@@ -184,7 +184,7 @@ pub fn run(thorough: bool) -> Vec<Part> {
         part.assume("error kinds are compared by the element at fault (request line / method / URI / version / header / payload(L,n)), never by message text");
         let mut cfg = Cfg::base("C01", "alphabet", alphabet::small(if thorough { 1 } else { 0 }), 40);
         cfg.eof = thorough;
-        let limits = Limits { max_states: if thorough { 6_000_000 } else { 1_500_000 }, max_secs: if thorough { 3000.0 } else { 200.0 }, ..Default::default() };
+        let limits = Limits { max_states: if thorough { 12_000_000 } else { 1_500_000 }, max_secs: if thorough { 1500.0 } else { 200.0 }, ..Default::default() };
         let st = bfs(&cfg, &limits, workers());
         record(&mut part, "alphabet", &st);
         crate::explore::require_facts(&mut part, "alphabet", &st, &[
@@ -193,6 +193,16 @@ pub fn run(thorough: bool) -> Vec<Part> {
             "read_carried_bytes_past_a_completed_request", "empty_read_while_partial_line_buffered",
             "read_filled_space_after_carry(line_crossed_buffer_edge)", "read_completed_two_or_more_requests"]);
         part.set("alphabet_pieces", json!(cfg.pieces.len()));
+        if thorough {
+            // the full 35-piece alphabet, explored as far as the cap allows (reported as capped)
+            let mut full = Cfg::base("C01", "alphabet-full", alphabet::small(2), 40);
+            full.empty_reads = false;
+            let stf = bfs(&full, &Limits { max_states: 5_000_000, max_secs: 600.0, ..Default::default() }, workers());
+            record(&mut part, "alphabet-full (capped)", &stf);
+            for (v, _) in &stf.violations {
+                part.violations.push(v.clone());
+            }
+        }
         {
             let tl = crate::connx::stateless_sequences(&cfg, if thorough { 4 } else { 3 }, workers());
             crate::connx::record_stateless(&mut part, "alphabet piece sequences", &tl);
@@ -201,7 +211,7 @@ pub fn run(thorough: bool) -> Vec<Part> {
         // streams, every segmentation with at most 2 (thorough: 3) cuts, with and without
         // empty reads before each segment; the observation sequence must equal the greedy
         // run's and the step-wise reference comparison must hold on every run.
-        let pcs = alphabet::small(1);
+        let pcs = alphabet::small(2);
         let by = |name: &str| pcs.iter().find(|p| p.name == name).unwrap().bytes.clone();
         let seqs: Vec<Vec<&str>> = vec![
             vec!["rl_get", "h_xa", "blank", "rl_put10", "h_cl3", "blank", "body_abc", "rl_get", "blank"],
